@@ -421,6 +421,8 @@ type layer struct {
 	prefetchSizeMu sync.Mutex
 
 	r reader.Reader
+	// verified is true when r has been acquired through the TOC digest verification.
+	verified bool
 
 	closed   bool
 	closedMu sync.Mutex
@@ -471,11 +473,19 @@ func (l *layer) Verify(tocDigest digest.Digest) (err error) {
 	if l.isClosed() {
 		return fmt.Errorf("layer is already closed")
 	}
-	if l.r != nil {
-		return nil
+	if l.r != nil && !l.verified {
+		// This layer has been served without verification so the chunk cache possibly
+		// holds unverified contents.
+		return fmt.Errorf("layer has already been used without verification")
 	}
-	l.r, err = l.verifiableReader.VerifyTOC(tocDigest)
-	return
+	// Check the digest also when this layer is already verified; the passed digest can
+	// differ from the one used by the previous verification.
+	r, err := l.verifiableReader.VerifyTOC(tocDigest)
+	if err != nil {
+		return err
+	}
+	l.r, l.verified = r, true
+	return nil
 }
 
 func (l *layer) SkipVerify() {
